@@ -2103,3 +2103,22 @@ func init() {
 		}
 	})
 }
+
+func init() {
+	// the evaluator (C02) and the stream readers (C04) reach the document only through the query wrappers of package idr:
+	// what an xpath selects is what the engine yields for the caller's expression (= C11 R11e/R11f). A private shortcut
+	// that answers some expression forms itself (seeds C11-8, C02-10: bare `@name` matched by local name only) changes
+	// the anchoring of every declaration that uses that form.
+	wrapRun("C02", func(c *core.Ctx) {
+		if c.CountRule("R02j") == 0 {
+			importRules(c, "C11", map[string]string{"R11e": "R02j", "R11f": "R02j"})
+			c.Floor("R02j", 4, "query wrappers: engine results passed on, caller's expression compiled")
+		}
+	})
+	wrapRun("C04", func(c *core.Ctx) {
+		if c.CountRule("R04l") == 0 {
+			importRules(c, "C11", map[string]string{"R11e": "R04l", "R11f": "R04l"})
+			c.Floor("R04l", 4, "query wrappers: engine results passed on, caller's expression compiled")
+		}
+	})
+}
